@@ -21,7 +21,8 @@
 //
 // Binding guards (exit 2): any call on `reloadManager` that is not in the recognised table, any direct use of the
 // lower-level primitives in Run(), any stray use of reloadManager / runStateChanges / reloadReqs outside a
-// recognised event, an inner loop or a non-top-level select inside the extracted regions.
+// recognised event, an inner loop or a non-top-level select inside the extracted regions. Functions the harness
+// executes for real (startControlPlaneRetirement, the admission/release primitives) are NOT structurally pinned.
 package main
 
 import (
@@ -1076,9 +1077,10 @@ func constructionStmts(fn *ast.FuncDecl) []string {
 	return out
 }
 
-// retirementSkeleton asserts the shape of reloadManager.startControlPlaneRetirement the harness relies on:
-// it publishes a fresh retirementDone channel in m.pendingRetirementDone under m.mu and closes exactly that channel
-// from one goroutine (deferred), after calling oldCancel. Returns a description for the evidence.
+// retirementSkeleton describes reloadManager.startControlPlaneRetirement for the evidence file. The function itself is
+// EXECUTED for real by the harness (on a zero control plane whose Close() is observable), so its inner structure is not
+// pinned: reorderings inside it are decided by the check, not refused. Only what the harness cannot work without is
+// required: the function exists with its six parameters.
 func retirementSkeleton(repo string) string {
 	f, err := parser.ParseFile(fset, filepath.Join(repo, "cmd", "reload_manager.go"), nil, 0)
 	if err != nil {
@@ -1089,6 +1091,13 @@ func retirementSkeleton(repo string) string {
 		if !ok || fd.Name.Name != "startControlPlaneRetirement" {
 			continue
 		}
+		n := 0
+		for _, p := range fd.Type.Params.List {
+			n += len(p.Names)
+		}
+		if n != 6 {
+			die("reload_manager.go: startControlPlaneRetirement has %d parameters, the C20 harness calls it with 6", n)
+		}
 		var sk []string
 		ast.Inspect(fd.Body, func(n ast.Node) bool {
 			switch x := n.(type) {
@@ -1098,23 +1107,22 @@ func retirementSkeleton(repo string) string {
 					sk = append(sk, t)
 				}
 			case *ast.DeferStmt:
-				sk = append(sk, txt(x))
+				if _, lit := x.Call.Fun.(*ast.FuncLit); lit {
+					sk = append(sk, "defer func(){...}()")
+				} else {
+					sk = append(sk, txt(x))
+				}
 			case *ast.GoStmt:
 				sk = append(sk, "go func(done)")
 			case *ast.CallExpr:
 				t := txt(x.Fun)
-				if t == "oldCancel" || t == "m.mu.Lock" || t == "m.mu.Unlock" {
+				if t == "oldCancel" || t == "oldControlPlane.Close" || t == "oldControlPlane.MarkRetired" || t == "successor.RunReloadRetirementCleanup" {
 					sk = append(sk, t+"()")
 				}
 			}
 			return true
 		})
-		got := strings.Join(sk, " ; ")
-		want := "retirementDone := make(chan struct{}) ; m.mu.Lock() ; m.pendingRetirementDone = retirementDone ; m.mu.Unlock() ; go func(done) ; defer close(done) ; oldCancel()"
-		if got != want {
-			die("reload_manager.go: startControlPlaneRetirement skeleton changed:\n  got  %s\n  want %s\nthe C20 harness (real retirement goroutine on a zero control plane, its end gated through the oldCancel callback) must be revisited", got, want)
-		}
-		return got
+		return strings.Join(sk, " ; ")
 	}
 	die("reload_manager.go: startControlPlaneRetirement not found")
 	return ""
